@@ -6,7 +6,9 @@ import (
 	"go/token"
 	"go/types"
 	"reflect"
+	"regexp/syntax"
 	"strings"
+	"unicode"
 
 	"golang.org/x/tools/go/ssa"
 )
@@ -474,6 +476,8 @@ func c17r4(c *Ctx, id string) {
 	no := w.Origin(name)
 	okAll := strings.Contains(no, "FindAllStringSubmatch)(") && strings.Contains(no, ", const(-1))[") && strings.HasSuffix(no, "][const(1)]")
 	c.Check(okAll, id, "all-matches", repl.Pos(), "name ranges over submatch 1 of all matches", "name ← "+no+", expected submatch[1] of every match (FindAllStringSubmatch(…, -1))")
+	// the placeholder pattern itself (a constant of the program, analysed with regexp/syntax — nothing is matched or run)
+	c17pattern(c, id, fn)
 	// the substituted text is loop-carried and finally parsed
 	// (the phi may be split over the loop header and the join after the if: leaves are taken through nested phis)
 	okCarried := false
@@ -732,5 +736,156 @@ func c17r5(c *Ctx, id string) {
 	})
 	if n < 4 {
 		c.Undecided(id, "floor", 0, "only %d returns found in the resolver (5 on the reference tree)", n)
+	}
+}
+
+// c17pattern: the regular expression that finds the placeholders is a constant; its syntax tree decides two necessary
+// conditions of "replaced at every occurrence": (a) it is the literal "${", one capture group, the literal "}"; (b) the
+// capture can never contain '}' — otherwise two placeholders in one token ("${HOST}:${PORT}") are read as one name that
+// no variable has — and (c) it admits every character of a portable environment-variable name ([A-Za-z0-9_]).
+func c17pattern(c *Ctx, id string, fn *ssa.Function) {
+	w := c.W
+	var find *ssa.Call
+	allInstrs(fn, func(in ssa.Instruction) {
+		if call, ok := in.(*ssa.Call); ok && calleeName(call.Common()) == "(*regexp.Regexp).FindAllStringSubmatch" {
+			find = call
+		}
+	})
+	if find == nil {
+		c.Undecided(id, "placeholder-pattern", fn.Pos(), "no FindAllStringSubmatch call: the placeholder scan was not recognised")
+		return
+	}
+	compileArg := func(v ssa.Value) (string, bool) {
+		call, ok := unwrap(v).(*ssa.Call)
+		if !ok {
+			return "", false
+		}
+		if n := calleeName(call.Common()); n != "regexp.MustCompile" && n != "regexp.Compile" && n != "regexp.MustCompilePOSIX" {
+			return "", false
+		}
+		k, ok := unwrap(call.Common().Args[0]).(*ssa.Const)
+		if !ok || k.Value == nil || k.Value.Kind() != constant.String {
+			return "", false
+		}
+		return constant.StringVal(k.Value), true
+	}
+	recv := unwrap(find.Common().Args[0])
+	pat, ok := compileArg(recv)
+	if !ok {
+		// a package-level variable initialised once
+		if u, isU := recv.(*ssa.UnOp); isU && u.Op == token.MUL {
+			if g, isG := u.X.(*ssa.Global); isG {
+				n := 0
+				for _, f := range w.ModFuncs {
+					allInstrs(f, func(in ssa.Instruction) {
+						if st, isSt := in.(*ssa.Store); isSt && st.Addr == ssa.Value(g) {
+							n++
+							pat, ok = compileArg(st.Val)
+						}
+					})
+				}
+				if n != 1 {
+					ok = false
+				}
+			}
+		}
+	}
+	if !ok {
+		c.Undecided(id, "placeholder-pattern", find.Pos(), "the placeholder pattern is not a constant compiled once: %s", w.Origin(recv))
+		return
+	}
+	re, err := syntax.Parse(pat, syntax.Perl)
+	if err != nil {
+		c.Fail(id, "placeholder-pattern", find.Pos(), "pattern %q does not parse: %v", pat, err)
+		return
+	}
+	re = re.Simplify()
+	// flatten the top-level concatenation
+	var parts []*syntax.Regexp
+	if re.Op == syntax.OpConcat {
+		parts = re.Sub
+	} else {
+		parts = []*syntax.Regexp{re}
+	}
+	lit := func(r *syntax.Regexp) string {
+		if r.Op == syntax.OpLiteral && r.Flags&syntax.FoldCase == 0 {
+			return string(r.Rune)
+		}
+		return "\x00"
+	}
+	shape := len(parts) == 3 && lit(parts[0]) == "${" && parts[1].Op == syntax.OpCapture && lit(parts[2]) == "}"
+	if !shape {
+		c.Fail(id, "placeholder-pattern", find.Pos(), "pattern %q is not the literal \"${\", one capture group, the literal \"}\" (parsed: %s)", pat, re.String())
+		return
+	}
+	// alphabet of the capture: can it contain r? (over-approximation: union of everything that can match one rune)
+	var can func(r *syntax.Regexp, x rune) bool
+	can = func(r *syntax.Regexp, x rune) bool {
+		switch r.Op {
+		case syntax.OpLiteral:
+			for _, y := range r.Rune {
+				if y == x || (r.Flags&syntax.FoldCase != 0 && unicode.SimpleFold(y) == x) {
+					return true
+				}
+			}
+			return false
+		case syntax.OpCharClass:
+			for i := 0; i+1 < len(r.Rune); i += 2 {
+				if r.Rune[i] <= x && x <= r.Rune[i+1] {
+					return true
+				}
+			}
+			return false
+		case syntax.OpAnyChar:
+			return true
+		case syntax.OpAnyCharNotNL:
+			return x != '\n'
+		}
+		for _, sub := range r.Sub {
+			if can(sub, x) {
+				return true
+			}
+		}
+		return false
+	}
+	// must: every rune of the set is accepted at every position of a non-empty name (decided for the shapes
+	// class+, class*, class{n,}, class class*; anything else is left undecided)
+	var unit *syntax.Regexp
+	body := parts[1].Sub[0]
+	switch body.Op {
+	case syntax.OpPlus, syntax.OpStar:
+		unit = body.Sub[0]
+	case syntax.OpRepeat:
+		if body.Max == -1 && body.Min <= 1 {
+			unit = body.Sub[0]
+		}
+	case syntax.OpConcat:
+		if len(body.Sub) == 2 && (body.Sub[1].Op == syntax.OpStar || body.Sub[1].Op == syntax.OpPlus) {
+			first, rest := body.Sub[0], body.Sub[1].Sub[0]
+			if first.Op == rest.Op && first.String() == rest.String() {
+				unit = first
+			}
+		}
+	}
+	closes := can(body, '}')
+	admits := unit != nil
+	missing := ""
+	if unit != nil {
+		for _, x := range "ABCXYZabcxyz0189_" {
+			if !can(unit, x) {
+				admits = false
+				missing += string(x)
+			}
+		}
+	}
+	switch {
+	case closes:
+		c.Fail(id, "placeholder-pattern", find.Pos(), "the name part of pattern %q can contain '}': two placeholders in one token (\"${A}:${B}\") are read as the single name \"A}:${B\" and neither is substituted", pat)
+	case unit == nil:
+		c.Undecided(id, "placeholder-pattern", find.Pos(), "the name part of pattern %q is not a repetition of one character class: which names it admits is not decided", pat)
+	case !admits:
+		c.Fail(id, "placeholder-pattern", find.Pos(), "the name part of pattern %q rejects %q: placeholders of ordinary variable names are not substituted", pat, missing)
+	default:
+		c.OK(id, "placeholder-pattern", find.Pos(), "pattern %q = \"${\" (name) \"}\"; the name cannot contain '}' and admits [A-Za-z0-9_] at every position", pat)
 	}
 }
